@@ -30,20 +30,70 @@ VALUES = ["V", 5, None, {"z": 1}, [1, 2], "", True, {"n": {"m": []}}, 0.5]
 
 
 def gen_history(rng, tree, nops):
-    """list of (pos, xp, value) writes; positions are evaluated in the current reference state"""
+    """list of (pos, xp, value) writes; positions are evaluated in the current reference state.
+    Biased towards what a per-path cache would get wrong: the same xpath written again, and an
+    ancestor replaced (through another spelling of the same node) by a copy of itself in between."""
     ref = copy.deepcopy(tree)
     ops = []
+    prev = []  # (pos, xp) of earlier writes
     for _ in range(nops):
         poss = [p for p, _ in X.positions(ref) if p]
         if not poss:
             break
-        p = rng.choice(poss)
-        xp = X.render(rng, ref, p)
-        v = copy.deepcopy(rng.choice(VALUES))
+        r = rng.random()
+        done = False
+        if prev and r < 0.25:
+            p, xp = rng.choice(prev)
+            # only spellings whose meaning does not depend on the current list lengths can be repeated verbatim
+            if X.valid_pos(ref, p) and "last()" not in xp and "-" not in xp:
+                v = copy.deepcopy(rng.choice(VALUES))
+                done = True
+        elif prev and r < 0.5:
+            p0, _ = rng.choice(prev)
+            if len(p0) > 1:
+                p = tuple(p0[: rng.randrange(1, len(p0))])
+                try:
+                    cur = X.get_at(ref, p) if X.valid_pos(ref, p) else None
+                    if isinstance(cur, (dict, list)):
+                        v = copy.deepcopy(cur)  # the same content, a new object
+                        if isinstance(v, dict):
+                            for kk in v:
+                                if not isinstance(v[kk], (dict, list)):
+                                    v[kk] = 0
+                        xp = X.render(rng, ref, p)
+                        done = True
+                except Exception:
+                    done = False
+        if not done:
+            p = rng.choice(poss)
+            xp = X.render(rng, ref, p)
+            v = copy.deepcopy(rng.choice(VALUES))
         ops.append({"pos": list(p), "xp": xp, "v": v})
+        prev.append((tuple(p), xp))
         par = X.get_at(ref, p[:-1])
         par[p[-1]] = copy.deepcopy(v)
     return ops
+
+
+ODD_ROOT_KEYS = [" id", "Amount ", "note\n", "a b", "\tk", "x.y", "-", "0"]
+
+
+def check_root_key(c):
+    """a root entry addressed directly by its key (no '/' or '['): plain dict semantics, whatever the key"""
+    n0dict, _ = X.n0()
+    o = n0dict(copy.deepcopy(c["tree"]))
+    ref = copy.deepcopy(c["tree"])
+    for k, v in c["writes"]:
+        vv = copy.deepcopy(v)
+        r = core.call(lambda: o.__setitem__(k, vv))
+        if r[0] != "ok":
+            return {"key": k, "raised": r[1]}
+        ref[k] = copy.deepcopy(v)
+        if dict(o) != ref or list(o) != list(ref):
+            return {"key": k, "tree": repr(dict(o))[:300], "reference": repr(ref)[:300]}
+        if o[k] is not vv:
+            return {"key": k, "readback": repr(o[k])[:100]}
+    return None
 
 
 def check_history(c):
@@ -74,6 +124,9 @@ def enc_val_plain(t):
 
 
 def shrink_failure(evaluator, case):
+    if "writes" in case:
+        return case
+
     def ok(c):
         if not (isinstance(c.get("tree"), dict) and c.get("mode") in ("n0", "wrap") and isinstance(c.get("ops"), list)):
             return False
@@ -93,6 +146,11 @@ def shrink_failure(evaluator, case):
 
 def replay(rp):
     c = rp["case"]
+    if "writes" in c:
+        bad = check_root_key(c)
+        print("case:", c)
+        print("result:", "property holds" if bad is None else bad)
+        return 1 if bad else 0
     if "ops" in c:
         bad = check_history(c)
         print("case:", c)
@@ -126,6 +184,14 @@ def run(ctx):
         t = X.gen_plain(rng, rng.choice([2, 3, 4]), "d")
         cases.append({"tree": t, "mode": rng.choice(["n0", "wrap"]), "ops": gen_history(rng, t, rng.randrange(1, 9))})
     ctx.evaluate("history", cases, check_history, nontrivial=lambda c: len(c["ops"]) > 1)
+    rk = []
+    rng2 = ctx.rng("rootkeys")
+    for _ in range(ctx.budget(300, 5000)):
+        ks = rng2.sample(ODD_ROOT_KEYS + ["id", "Amount", "note", "k"], rng2.randrange(1, 6))
+        tree = {k: rng2.choice(["v", 1, None]) for k in ks}
+        writes = [[rng2.choice(ks), rng2.choice(["W", 2, {"z": 1}])] for _ in range(rng2.randrange(1, 4))]
+        rk.append({"tree": tree, "writes": writes})
+    ctx.evaluate("root_key", rk, check_root_key)
     # exhaustive small scope: every small tree, every position, one write (scalar and container)
     nmax = 4 if ctx.tier == "thorough" else 3
     ex = []
